@@ -148,7 +148,8 @@ class VHDX(AlignedStream):
                 # Seek into the bitmap to where we are relative in the cluster
                 self.fh.seek((sector_bitmap_entry.file_offset_mb * MB) + byte_idx)
                 # Read the bitmap for the amount of sectors we're interested in, rounded up
-                sector_bitmap = self.fh.read((read_count + 8 - 1) // 8)
+                # The first sector can start anywhere in the first bitmap byte
+                sector_bitmap = self.fh.read((bit_idx + read_count + 8 - 1) // 8)
 
                 # Calculate runs from the bitmap and read from the correct source
                 relative_sector = 0
@@ -298,18 +299,21 @@ class MetadataTable:
 
 
 def _iter_partial_runs(bitmap: bytes, start_idx: int, length: int) -> Iterator[tuple[int, int]]:
-    current_type = (bitmap[0] & (1 << start_idx)) >> start_idx
+    current_type = (bitmap[0] >> start_idx) & 1
     current_count = 0
 
     for byte in bitmap:
+        if length <= 0:
+            break
+
+        # The amount of bits we need from this byte, only the first byte can start at a bit offset
+        bit_count = min(length, 8 - start_idx)
+
         if (current_type, byte) == (0, 0) or (current_type, byte) == (1, 0xFF):
-            max_count = min(length, 8 - start_idx)
-            current_count += max_count
-            length -= max_count
-            start_idx = 0
+            current_count += bit_count
         else:
-            for bit_idx in range(start_idx, min(length, 8)):
-                sector_type = (byte & (1 << bit_idx)) >> bit_idx
+            for bit_idx in range(start_idx, start_idx + bit_count):
+                sector_type = (byte >> bit_idx) & 1
 
                 if sector_type == current_type:
                     current_count += 1
@@ -318,7 +322,8 @@ def _iter_partial_runs(bitmap: bytes, start_idx: int, length: int) -> Iterator[t
                     current_type = sector_type
                     current_count = 1
 
-                length -= 1
+        length -= bit_count
+        start_idx = 0
 
     if current_count:
         yield (current_type, current_count)
